@@ -330,6 +330,13 @@ impl<R: DynamicChannelRegion> RegionHandler for DynamicChannelPlan<R> {
         }
         // Disable channel if frequency is 0
         if freq == 0 {
+            // ...unless it is the last channel left to transmit on: like a LinkADRReq mask
+            // that disables everything, such a request is refused.
+            let mut remaining = self.channel_mask.clone();
+            remaining.set_channel(index as usize, false);
+            if !self.channel_mask_validate(&remaining, None) {
+                return (false, false);
+            }
             self.channels[index as usize] = None;
             self.channel_mask.set_channel(index as usize, false);
             return (true, true);
